@@ -470,8 +470,28 @@ def rule_onclose_owner(ctx):
         else:
             ctx.ob(f"{cl.qualname}: {stmt_key(c)} [branch]", False,
                    "_onClose call not under a wasClean test; reported code cannot be tied to cleanliness", cl.loc(c))
-    # wasClean = True only in onCloseFrame, in CLOSING (our close already sent) or in OPEN followed by our reply
+    # "after it nothing further is delivered": the open notification runs from continuations of user hooks (onConnect may be asynchronous);
+    # by then the connection may be gone -- every continuation re-checks that the state is OPEN before it notifies
     S = _states(ctx)
+    opens = []
+    for f in [x for x in hierarchy_funcs(ctx.program, WSP) if not is_test_module(x.module.name)]:
+        if not any(self_call(c, "_onOpen") for c in calls_in(f.node)):
+            continue
+        gg, mm, rr = an.get(f)
+        for n in gg.stmt_nodes():
+            for c in node_calls(n):
+                if self_call(c, "_onOpen"):
+                    opens.append((f, gg, mm, n, c))
+    ctx.require(len(opens) >= 2, "fewer than 2 _onOpen call sites found")
+    for f, gg, mm, n, c in opens:
+        if f.parent is None:
+            vals = norm.values_allowed(mm.at(n), "self.state", set(S.values()))
+            ok = vals == {S["STATE_OPEN"]}
+        else:
+            ok = norm.values_allowed(mm.at(n), "self.state", set(S.values())) == {S["STATE_OPEN"]}
+        ctx.ob(f"{f.qualname}: the open notification is delivered only while the state is (still) OPEN", ok,
+               "onOpen can be delivered on a connection that was closed or lost while the user's onConnect() was pending (onOpen after onClose)", f.loc(c))
+    # wasClean = True only in onCloseFrame, in CLOSING (our close already sent) or in OPEN followed by our reply
     ocf = wsp.methods.get("onCloseFrame")
     n_true = 0
     for f in [x for x in hierarchy_funcs(ctx.program, WSP) if not is_test_module(x.module.name)]:
